@@ -11,6 +11,7 @@ import (
 	"errors"
 	"fmt"
 	"net"
+	"net/netip"
 	"reflect"
 	"sort"
 	"strings"
@@ -110,6 +111,36 @@ func worlds() []world {
 		z["o.example/65"] = []dnsref.RR{https("o.example", 1, "", []byte{}, 0)}
 		exp[origin+":443"] = []byte{}
 	})
+	// round 13: the ADDRESS the name resolves to is the zone's choice and plays no part in any decision: loopback, unspecified,
+	// link-local, private, multicast and broadcast addresses (IPv4 and IPv6) get the same treatment as documentation addresses -
+	// in particular RequireECH refuses an attempt without a list whatever the address is
+	for _, ip := range [][]byte{{127, 0, 0, 1}, {127, 8, 9, 10}, {0, 0, 0, 0}, {169, 254, 1, 1}, {10, 0, 0, 1}, {224, 0, 0, 1}, {255, 255, 255, 255},
+		{15: 1}, {0: 0xfe, 1: 0x80, 15: 1}, {0: 0xfc, 15: 1}, {10: 0xff, 11: 0xff, 12: 127, 15: 1}} {
+		typ, key := uint16(1), "o.example/1"
+		if len(ip) == 16 {
+			typ, key = 28, "o.example/28"
+		}
+		ap, _ := netip.AddrFromSlice(ip)
+		hp := netip.AddrPortFrom(ap, 443).String()
+		rec := dnsref.RR{Name: "o.example", Type: typ, Class: 1, TTL: 60, Fields: []dnsref.Field{{Raw: ip}}}
+		add("special-address-no-https:"+ap.String(), func(z map[string][]dnsref.RR) {
+			delete(z, "o.example/1")
+			z[key] = []dnsref.RR{rec}
+			exp[hp] = nil
+		})
+		add("special-address-record-without-ech:"+ap.String(), func(z map[string][]dnsref.RR) {
+			delete(z, "o.example/1")
+			z[key] = []dnsref.RR{rec}
+			z["o.example/65"] = []dnsref.RR{https("o.example", 1, "", nil, 0)}
+			exp[hp] = nil
+		})
+		add("special-address-record-with-ech:"+ap.String(), func(z map[string][]dnsref.RR) {
+			delete(z, "o.example/1")
+			z[key] = []dnsref.RR{rec}
+			z["o.example/65"] = []dnsref.RR{https("o.example", 1, "", listE1, 0)}
+			exp[hp] = listE1
+		})
+	}
 	add("one-record-no-ech", func(z map[string][]dnsref.RR) {
 		z["o.example/65"] = []dnsref.RR{https("o.example", 1, "", nil, 0)}
 		exp[origin+":443"] = nil
